@@ -575,6 +575,30 @@ pub fn gen_codec(seed: u64, n_valid: u64, n_bad: u64, out: &crate::gens::Sink) {
             out.push(format!("txt.parse {ty} {}", hex(&bad)).trim_end().to_string());
         }
     }
+    // a list in which one order id occurs twice: an element repeated at the end, next to itself, or the whole list
+    // doubled (every element parses; the queue / the level is built by pushing them in turn)
+    for ty in ["queue", "level"] {
+        for k in 0..60u64 {
+            let v = rvalue(&mut r, ty);
+            let Some(text) = show_by_type(ty, &v) else { continue };
+            if text.len() > 4000 || !text.ends_with(']') { continue; }
+            let Some(open) = text.rfind('[') else { continue };
+            let body = &text[open + 1..text.len() - 1];
+            if body.is_empty() { continue; }
+            let els: Vec<&str> = body.split(',').collect();
+            let i = r.below(els.len() as u64) as usize;
+            let mut w: Vec<&str> = els.clone();
+            match k % 3 {
+                0 => w.push(els[i]),
+                1 => w.insert(i, els[i]),
+                _ => w.extend(els.iter().copied()),
+            }
+            let dup = format!("{}[{}]", &text[..open], w.join(","));
+            out.push(format!("case {case}"));
+            case += 1;
+            out.push(format!("txt.parse {ty} {}", hex(&dup)));
+        }
+    }
     // every prefix of one valid encoding per type (a text cut right after a list, a field, a separator …)
     for ty in TYPES {
         let v = rvalue(&mut r, ty);
